@@ -67,6 +67,11 @@ def run(ctx):
         cases.append(("many-errors", i))
     for i in range(2 if quick else 8):
         cases.append(("similar-labels", i))
+    # one group of diagnostics that yardl produces while ranging over a map, preceded by 0..11 diagnostics with a fixed order: wherever a limit, a
+    # truncation or a "first N" rule might cut, the cut falls inside the map-ordered group
+    for gi, group in enumerate(("enum-shared-values", "flags-shared-values", "unused-type-parameters", "breaking-steps")):
+        for lead in ((0, 5, 9) if quick else (0, 1, 3, 5, 7, 9, 11, 15, 19)):
+            cases.append(("map-ordered-group", "%s/%d" % (group, lead)))
 
     def one(case):
         kind, i = case
@@ -103,6 +108,25 @@ def run(ctx):
             old = "".join("Pm%d: !protocol\n  sequence:\n    a: %s\n" % (j, "int") for j in range(8))
             common.write_tree(base, {"v0/_package.yml": "namespace: Many\n", "v0/m.yml": old,
                                      "new/_package.yml": "namespace: Many\nversions:\n  v0: ../v0\njson:\n  outputDir: ../out/json\n", "new/m.yml": bad if i % 3 != 2 else old.replace("int", "string").replace("a:", "a:") + "Other: int\n"})
+            pkgdir = os.path.join(base, "new")
+        elif kind == "map-ordered-group":
+            group, lead = i.split("/")
+            lead = int(lead)
+            new = "Lead: !record\n  fields:\n    ok: int\n" + "".join("    Bad_Lead%d: int\n" % j for j in range(lead))
+            old = "Keep: !protocol\n  sequence:\n    a: int\n"
+            new_protos = old
+            if group == "enum-shared-values":
+                new += "Shared: !enum\n  values:\n" + "".join("    a%d: %d\n    b%d: %d\n    c%d: %d\n" % (j, j, j, j, j, j) for j in range(14))
+            elif group == "flags-shared-values":
+                new += "SharedF: !flags\n  base: uint64\n  values:\n" + "".join("    fa%d: %d\n    fb%d: %d\n" % (j, 1 << j, j, 1 << j) for j in range(14))
+            elif group == "unused-type-parameters":
+                new += "".join('"Unused%d<%s>": !record\n  fields:\n    x: int\n' % (k, ", ".join("T%d" % j for j in range(9))) for k in range(3))
+            else:
+                old += "".join("Pm%d: !protocol\n  sequence:\n    a: int\n    b: int\n    c: string\n" % j for j in range(12))
+                new_protos += "".join("Pm%d: !protocol\n  sequence:\n    a: string*\n    b: int*\n    c: int->int\n" % j for j in range(12))
+                new = "Lead: !record\n  fields:\n    ok: int\n"      # evolution is only checked when the model itself validates
+            common.write_tree(base, {"v0/_package.yml": "namespace: Mo\n", "v0/m.yml": old,
+                                     "new/_package.yml": "namespace: Mo\nversions:\n  v0: ../v0\njson:\n  outputDir: ../out/json\n", "new/m.yml": new + new_protos})
             pkgdir = os.path.join(base, "new")
         elif kind == "similar-labels":
             # previous versions whose labels differ only in leading zeros / digit grouping, each with its own change of the same steps
